@@ -13,6 +13,11 @@ pub struct LoggingConcat {
     pub sort: bool,
 }
 thread_local! {
+    /// while set, LoggingConcat joins the values it is given with the separator 0x7C instead of concatenating
+    /// them (associative, keeps a lone value, sees the order of the values and empty values at every position)
+    pub static LAST_WINS: std::cell::Cell<bool> = std::cell::Cell::new(false);
+}
+thread_local! {
     /// when armed (Some), every merge call of this thread is recorded as (key it was given, value it returned):
     /// the log survives the merge function being moved into a sorter or a merger
     pub static CALL_LOG: RefCell<Option<Vec<(Vec<u8>, Vec<u8>)>>> = RefCell::new(None);
@@ -28,6 +33,11 @@ impl MergeFunction for LoggingConcat {
         if values.len() == 1 && !self.sort {
             CALL_LOG.with(|l| if let Some(v) = l.borrow_mut().as_mut() { v.push((key.to_vec(), values[0].to_vec())) });
             return Ok(values[0].clone()); // lone value unchanged (borrowed)
+        }
+        if LAST_WINS.with(|l| l.get()) {
+            let out: Vec<u8> = values.iter().map(|v| v.to_vec()).collect::<Vec<_>>().join(&0x7Cu8);
+            CALL_LOG.with(|l| if let Some(v) = l.borrow_mut().as_mut() { v.push((key.to_vec(), out.clone())) });
+            return Ok(Cow::Owned(out));
         }
         let mut out: Vec<u8> = values.iter().flat_map(|v| v.iter().copied()).collect();
         if self.sort {
@@ -77,6 +87,10 @@ pub fn gen_sources(rng: &mut Rng) -> Vec<Vec<(Vec<u8>, Vec<u8>)>> {
                 // value tagged with its source so order and multiplicity are visible
                 let mut v = vec![b'A' + i as u8];
                 v.extend((0..rng.below(4)).map(|_| rng.next() as u8));
+                // now and then the empty value (a value like any other: it counts in the merge)
+                if rng.chance(1, 7) {
+                    v.clear();
+                }
                 es.push((key.clone(), v));
             }
         }
